@@ -6,6 +6,7 @@ import (
 	"go/token"
 	"os"
 	"path/filepath"
+	"sort"
 	"strings"
 )
 
@@ -795,5 +796,207 @@ func extractC07Evidence(c *Ctx) error {
 	c.P("Definition add_evidence_shape : string := %s.", CoqStr(shape))
 	c.Info("evidence_seam", seam)
 	c.Info("winner_is", rep)
+	return extractC07Guards(c)
+}
+
+// third round: per ACTION TYPE, the guards between the winner and the follow-up.  Every attester
+// must hand a transaction proof to its `attest`, whose first statement must run the shared
+// attestTransactionIntegrity (processed-tx check, last compass, VerifyAgainstTX, in this order) and
+// return on its error; an attester with a helper of its own gets the guards that helper runs.  The
+// lists go into the model (Evm/AttestSym.v code_guards) and into a proof obligation.  Also: the key by
+// which the success follow-up of a user contract upload finds the deployment record it writes to.
+func extractC07Guards(c *Ctx) error {
+	af, err := c.Parse("x/evm/keeper/attest.go")
+	if err != nil {
+		return err
+	}
+	ti := FindFunc(af, "", "attestTransactionIntegrity")
+	if ti == nil {
+		return fmt.Errorf("attestTransactionIntegrity not found")
+	}
+	// the guards a body runs, in source order; each must be followed by an error return
+	guardsOf := func(body *ast.BlockStmt) []string {
+		type hit struct {
+			pos token.Pos
+			g   string
+		}
+		var hits []hit
+		ast.Inspect(body, func(n ast.Node) bool {
+			ce, ok := n.(*ast.CallExpr)
+			if !ok {
+				return true
+			}
+			name := ""
+			switch f := ce.Fun.(type) {
+			case *ast.SelectorExpr:
+				name = f.Sel.Name
+			case *ast.Ident:
+				name = f.Name
+			}
+			switch name {
+			case "isTxProcessed":
+				hits = append(hits, hit{ce.Pos(), "processed"})
+			case "GetLastCompassContract":
+				hits = append(hits, hit{ce.Pos(), "compass"})
+			case "VerifyAgainstTX", "verifyTx":
+				hits = append(hits, hit{ce.Pos(), "verify"})
+			}
+			return true
+		})
+		sort.Slice(hits, func(i, j int) bool { return hits[i].pos < hits[j].pos })
+		var out []string
+		for _, h := range hits {
+			out = append(out, h.g)
+		}
+		return out
+	}
+	integrity := guardsOf(ti.Body)
+	tb := strings.Join(strings.Fields(c.Src(ti.Body)), " ")
+	for _, need := range []string{
+		"if k.isTxProcessed(ctx, tx) {", "return nil, ErrUnexpectedError.JoinErrorf(\"transaction %s is already processed\", tx.Hash())",
+		"compass, err := k.GetLastCompassContract(ctx) if err != nil { return nil, err }",
+		"err = verifyTx(ctx, tx, msg, &valset, compass, relayer) if err != nil {", "return nil, fmt.Errorf(\"tx failed to verify: %w\", err)",
+	} {
+		if !strings.Contains(tb, need) {
+			integrity = append(integrity, "?attestTransactionIntegrity lost `"+need+"`")
+		}
+	}
+	c.P("(* x/evm/keeper/attest.go attestTransactionIntegrity: its guards, in order *)")
+	c.P("Definition integrity_guards : list string := %s.", CoqStrList(integrity))
+	type att struct{ file, recv, coq string }
+	for _, a := range []att{
+		{"x/evm/keeper/attest_submit_logic_call.go", "submitLogicCallAttester", "guards_submit_logic_call"},
+		{"x/evm/keeper/attest_update_valset.go", "updateValsetAttester", "guards_update_valset"},
+		{"x/evm/keeper/attest_upload_smart_contract.go", "uploadSmartContractAttester", "guards_upload_smart_contract"},
+		{"x/evm/keeper/attest_upload_user_smart_contract.go", "uploadUserSmartContractAttester", "guards_upload_user_smart_contract"},
+		{"x/evm/keeper/attest_compass_handover.go", "compassHandoverAttester", "guards_compass_handover"},
+	} {
+		f, err := c.Parse(a.file)
+		if err != nil {
+			return err
+		}
+		var gs []string
+		ex, at := FindFunc(f, a.recv, "Execute"), FindFunc(f, a.recv, "attest")
+		if ex == nil || at == nil {
+			return fmt.Errorf("%s: Execute / attest not found", a.recv)
+		}
+		// Execute: case *types.TxExecutedProof: return a.attest(ctx, <the proof>)
+		routed := false
+		ast.Inspect(ex.Body, func(n ast.Node) bool {
+			cc, ok := n.(*ast.CaseClause)
+			if !ok || len(cc.List) != 1 || c.Src(cc.List[0]) != "*types.TxExecutedProof" {
+				return true
+			}
+			if len(cc.Body) == 1 {
+				if rs, ok := cc.Body[0].(*ast.ReturnStmt); ok && len(rs.Results) == 1 && strings.HasPrefix(c.Src(rs.Results[0]), "a.attest(ctx, ") {
+					routed = true
+				}
+			}
+			return true
+		})
+		if !routed {
+			gs = append(gs, "?Execute does not hand the transaction proof straight to attest")
+		}
+		// attest: first statement = the integrity call (or a helper of the attester's own), second = return on its error
+		if len(at.Body.List) < 2 {
+			gs = append(gs, "?attest too short")
+		} else {
+			first, _ := at.Body.List[0].(*ast.AssignStmt)
+			second, _ := at.Body.List[1].(*ast.IfStmt)
+			okRet := false
+			if second != nil && c.Src(second.Cond) == "err != nil" && len(second.Body.List) > 0 {
+				if rs, ok := second.Body.List[len(second.Body.List)-1].(*ast.ReturnStmt); ok && len(rs.Results) == 1 && c.Src(rs.Results[0]) == "err" {
+					okRet = true
+				}
+			}
+			switch {
+			case first == nil || len(first.Rhs) != 1:
+				gs = append(gs, "?first statement of attest is not a guard call")
+			default:
+				call, _ := first.Rhs[0].(*ast.CallExpr)
+				src := ""
+				if call != nil {
+					src = strings.Join(strings.Fields(c.Src(call)), " ")
+				}
+				switch {
+				case src == "attestTransactionIntegrity(ctx, a.originalMessage, a.k, evidence, a.chainReferenceID, a.msg.AssigneeRemoteAddress, a.action.VerifyAgainstTX)":
+					gs = append(gs, integrity...)
+				case call != nil && strings.HasPrefix(src, "a."):
+					// a helper of the attester's own: whatever guards it runs
+					if se, ok := call.Fun.(*ast.SelectorExpr); ok {
+						if h := FindFunc(f, a.recv, se.Sel.Name); h != nil {
+							hg := guardsOf(h.Body)
+							for _, ic := range Calls(h.Body, "attestTransactionIntegrity") {
+								_ = ic
+								hg = append(hg, integrity...)
+							}
+							gs = append(gs, hg...)
+							gs = append(gs, "?own helper "+se.Sel.Name)
+						} else {
+							gs = append(gs, "?helper not found: "+src)
+						}
+					}
+				default:
+					gs = append(gs, "?unknown first statement: "+src)
+				}
+			}
+			if !okRet {
+				gs = append(gs, "?the guard's error is not returned at once")
+			}
+		}
+		c.P("Definition %s : list string := %s.", a.coq, CoqStrList(gs))
+		c.Info(a.coq, gs)
+	}
+
+	// finishUserSmartContractDeployment: which fields of a deployment record are compared with (targetChain, blockHeight)
+	uf, err := c.Parse("x/evm/keeper/user_smart_contract.go")
+	if err != nil {
+		return err
+	}
+	fin := FindFunc(uf, "Keeper", "finishUserSmartContractDeployment")
+	if fin == nil {
+		return fmt.Errorf("finishUserSmartContractDeployment not found")
+	}
+	keys := map[string]bool{}
+	var scan func(body *ast.BlockStmt, depth int)
+	scan = func(body *ast.BlockStmt, depth int) {
+		ast.Inspect(body, func(n ast.Node) bool {
+			switch v := n.(type) {
+			case *ast.BinaryExpr:
+				if v.Op == token.EQL || v.Op == token.NEQ {
+					for _, pr := range [][2]ast.Expr{{v.X, v.Y}, {v.Y, v.X}} {
+						se, ok1 := pr[0].(*ast.SelectorExpr)
+						id, ok2 := pr[1].(*ast.Ident)
+						if ok1 && ok2 && (id.Name == "targetChain" || id.Name == "blockHeight") {
+							keys[se.Sel.Name+"~"+id.Name] = true
+						}
+					}
+				}
+			case *ast.CallExpr:
+				if id, ok := v.Fun.(*ast.Ident); ok && depth < 2 {
+					if h := FindFunc(uf, "", id.Name); h != nil {
+						scan(h.Body, depth+1)
+					}
+				}
+			}
+			return true
+		})
+	}
+	scan(fin.Body, 0)
+	ks := SortedSet(keys)
+	c.P("(* x/evm/keeper/user_smart_contract.go finishUserSmartContractDeployment: the record it writes to is the first whose ... *)")
+	c.P("Definition user_deployment_lookup : list string := %s.", CoqStrList(ks))
+	c.P("Definition user_lookup_by_created : bool := %v.", len(ks) == 2 && ks[0] == "ChainReferenceId~targetChain" && ks[1] == "CreatedAtBlockHeight~blockHeight")
+	c.Info("user_deployment_lookup", ks)
+	cr := FindFunc(uf, "Keeper", "CreateUserSmartContractDeployment")
+	crs := "?"
+	if cr != nil {
+		src := strings.Join(strings.Fields(c.Src(cr.Body)), " ")
+		if strings.Contains(src, "Status: types.UserSmartContract_Deployment_IN_FLIGHT, CreatedAtBlockHeight: blockHeight, UpdatedAtBlockHeight: blockHeight, }") &&
+			strings.Contains(src, "blockHeight := sdk.UnwrapSDKContext(ctx).BlockHeight()") && strings.Contains(src, "contract.Deployments = append(contract.Deployments, deployment)") {
+			crs = "appended, IN_FLIGHT, created = updated = current height"
+		}
+	}
+	c.P("Definition user_deployment_created : string := %s.", CoqStr(crs))
 	return nil
 }
